@@ -82,7 +82,7 @@ def opLines : List String :=
   ["failat 3", "failfrom 2", "failoff", "end", "nr_start 0 1", "nw_start 1 2", "na_start 2 3", "nbr_init 0 4",
    "nbw_init 0 5", "nbr_wait 0 100", "nbw_reserve 0 10", "nbw_consume 0 10", "nbw_write 0 10", "nr_cancel 0",
    "nw_cancel 1", "na_cancel 2", "nc_cancel 0", "hq_cancel 0", "nbw_free 0", "nbr_cancel 0", "nbr_free 0",
-   "nc_start 0 gb 1000", "nc_start 1 - -", "hq_start 0 g 17"]
+   "nc_start 0 gb 1000", "nc_start 1 - -", "hq_start 0 g 17", "hqs_start 1 g 17 9"]
 
 -- every op line is read by `pmodel upmodel` (that `pmodel upmon` then sees its kind is `up_parseKind`)
 #guard opLines.all fun l => (Upmodel.parseOp (loopToks l)).isSome
